@@ -503,3 +503,33 @@ def replay_relative_to(ctx, model, what):
             path = save(ctx, what, {'property': ctx.pid, 'what': what, 'native': got, 'reference': [exp_lo, exp_hi], 'deviation': 'bounds are not attained at the endpoints'})
             return True, path, 'bounds %s vs %s' % (got[2], [exp_lo, exp_hi])
     return False, None, 'relative_to encloses and attains on the model-derived inputs'
+
+
+def replay_unpaired_mirror(ctx, model, what):
+    """negating both samples must mirror the interval (and turn an error into the same error), natively, on the model's states and
+    on a battery that includes constant samples"""
+    drv = Driver.get(ctx)
+    A, B = arith_inputs(model, 'a'), arith_inputs(model, 'b')
+    const5, const2 = (15.0, 0.0, 75.0, 0.0, 3), (8.0, 0.0, 16.0, 0.0, 4)
+    rats_a, rats_b = (1440.0, 0.0, 177832.0, 0.0, 12), (707.0, 0.0, 73959.0, 0.0, 7)
+    neg = lambda st: (-st[0], -st[1], st[2], st[3], st[4])
+    enc = lambda st: ' '.join([bits(x) for x in st[:4]] + [str(st[4])])
+    for (a, b) in [(A, B), (const5, const2), (const2, const5), (rats_a, rats_b), (rats_a, const2)]:
+        for kind, L in [(0, 0.95), (1, 0.9), (2, 0.9)]:
+            mk = {0: 0, 1: 2, 2: 1}[kind]
+            c1 = 'unpaired_ci_mean f64 %s %s %d %s' % (enc(a), enc(b), kind, bits(L))
+            c2 = 'unpaired_ci_mean f64 %s %s %d %s' % (enc(neg(a)), enc(neg(b)), mk, bits(L))
+            r1, r2 = [parse_result(x) for x in drv.run([c1, c2])]
+            ok = True
+            if r1[0] != r2[0]:
+                ok = False
+            elif r1[0] == 'ok':
+                b1, b2 = r1[2], r2[2]
+                mirrored = [-x for x in reversed(b2)]
+                ok = len(b1) == len(b2) and all(close(u, v, abs(u) + abs(v) + 1e-300, 1e-9) for u, v in zip(b1, mirrored))
+            elif r1[0] == 'err':
+                ok = r1[1] == r2[1]
+            if not ok:
+                path = save(ctx, what, {'property': ctx.pid, 'what': what, 'commands': [c1, c2], 'native': [r1, r2], 'deviation': 'negating both samples does not mirror the outcome'})
+                return True, path, '%s vs negated %s' % (r1, r2)
+    return False, None, 'negation mirrors the outcome on the battery'
